@@ -930,6 +930,23 @@ func (g *Gen) trCall(x ECall, env *Env) Val {
 		v := arg(0)
 		g.fmtIntDecl()
 		return Val{T: "(fmtInt " + v.T + ")", Ty: tyStr}
+	case "called":
+		// called("callee"[, k]): the callee has been called at least k (default 1) times in this function before
+		// this point - a constant, so that `called(...) ==> ... resultof(...) ...` is only translated where it makes sense
+		ks, ok := x.Args[0].(EStr)
+		if !ok {
+			trFail("called(\"callee\"[, k])")
+		}
+		k := int64(1)
+		if len(x.Args) > 1 {
+			if kn, ok := x.Args[1].(EInt); ok {
+				k = kn.V
+			}
+		}
+		if int64(len(env.callResults[ks.V])) >= k {
+			return Val{T: "true", Ty: tyBool}
+		}
+		return Val{T: "false", Ty: tyBool}
 	case "resultof":
 		// resultof("callee", k, j): j-th result of the k-th call of callee in this function (1-based)
 		ks, ok := x.Args[0].(EStr)
